@@ -1,5 +1,119 @@
-(* P_C11.v — placeholder while the model is being validated. *)
+(* P_C11.v — property C11: a value written literally in a definition reaches
+   the evaluated result exactly as written (same structure, strings character
+   for character, same numbers, booleans, nulls); the only exception is that a
+   string which is itself a decimal numeral is delivered as that number.
+
+   Statements only; proofs are in proofs/Encode_proofs.v.
+   Models: model/Encode.v  (koreo.cel.encoder.encode_cel, _encode_str, _encode_plain),
+           model/CelLit.v  (lark + celpy on the encoded text: lexer, parser,
+                            literal evaluation, convert_bools being the identity
+                            on JSON-shaped values).
+   Strings are UTF-8 byte strings.  eval_lit t = ROk v  means: compiling and
+   evaluating text t gives the JSON value v (no parse error, no evaluation
+   error, nothing outside the modelled CEL fragment). *)
 From Koreo Require Import Json Encode CelLit Encode_proofs.
-Example C11_placeholder : numeral_kind (txt "1.5e3") = Some KFloat.
-Proof. reflexivity. Qed.
-Print Assumptions C11_placeholder.
+Local Open Scope list_scope.
+
+(* ---- strings: the heart of the property ---- *)
+
+(* celpy's un-escaping inverts the encoder's escaping, for every byte string *)
+Theorem C11_unescape_escape : forall s : text, unescape (escape s) = UOk s.
+Proof. exact unescape_escape. Qed.
+
+(* "same strings character for character": any text whatsoever (quotes,
+   backslashes, newlines, tabs, controls, blanks, inf/nan, any UTF-8), once
+   encoded by _encode_str -- the form used for string values that are not
+   numerals and for every map key -- lexes, parses and evaluates to exactly
+   that text *)
+Theorem C11_string_roundtrip : forall t : text, eval_lit (encode_str t) = ROk (JStr (str t)).
+Proof. exact string_roundtrip. Qed.
+
+(* the documented exception, and only it: norm changes a string iff it is a
+   decimal numeral  -?[0-9]+(\.[0-9]+)?([eE][+-]?[0-9]+)?  (numeral_kind is that
+   grammar as an explicit matcher); then it is that number *)
+Theorem C11_norm_other_strings : forall s, numeral_kind (txt s) = None -> norm_str s = JStr s.
+Proof. exact norm_str_nonnumeral. Qed.
+
+Theorem C11_norm_int_numeral :
+  forall s, numeral_kind (txt s) = Some KInt -> norm_str s = JInt (int_of_text (txt s)).
+Proof. exact norm_str_int. Qed.
+
+Theorem C11_norm_float_numeral :
+  forall s m e, numeral_kind (txt s) = Some KFloat -> fparse (txt s) = Some (m, e) ->
+                norm_str s = JFloat m e.
+Proof. exact norm_str_float. Qed.
+
+(* "same numbers": an integer is printed as a numeral that reads back as itself *)
+Theorem C11_int_text : forall z, numeral_kind (print_Z z) = Some KInt /\ int_of_text (print_Z z) = z.
+Proof. intro z. split; [apply print_Z_numeral|apply print_Z_value]. Qed.
+
+Section C11.
+  (* repr(float): not modelled.  Assumed of CPython, and re-checked by the
+     correspondence check on every float text a run produces. *)
+  Variable fprint : Z -> Z -> text.
+  Hypothesis fprint_numeral :
+    forall m e, float_ok m e = true -> numeral_kind (fprint m e) = Some KFloat.
+  Hypothesis fprint_parse :
+    forall m e, float_ok m e = true -> fparse (fprint m e) = Some (m, e).
+
+  (* the encoded text of a value in range, followed by a delimiter or nothing,
+     lexes to exactly the value's token sequence *)
+  Theorem C11_lex_encode : forall v,
+    in_range v = true -> no_leading_eq v = true ->
+    forall r, delim_start r = true ->
+    lex 0 (encode fprint v ++ r) = lapp (tokens fprint v) (lex 0 r).
+  Proof. exact (lex_encode fprint fprint_numeral). Qed.
+
+  (* the token sequence parses to exactly the value's tree, in any context *)
+  Theorem C11_parse_tokens_encode : forall v stk st r,
+    want st -> run stk st (tokens fprint v ++ r) = after stk (ast_of fprint v) r.
+  Proof. exact (parse_tokens_encode fprint). Qed.
+
+  (* main theorem.  For every JSON value (nested maps and lists, any text, 64-bit
+     integers, finite floats, booleans, null -- in_range; unique keys -- wf; no
+     string VALUE starting with the CEL prefix -- no_leading_eq; keys may):
+     compile + evaluate of encode_cel(v) yields norm v, i.e. v itself with
+     numeral strings delivered as numbers *)
+  Theorem C11_roundtrip : forall v,
+    wf v = true -> in_range v = true -> no_leading_eq v = true ->
+    eval_lit (encode fprint v) = ROk (norm v).
+  Proof. exact (roundtrip fprint fprint_numeral fprint_parse). Qed.
+
+  (* map keys (also keys that look like numbers or start with the CEL prefix)
+     come back unchanged, all of them, in order *)
+  Theorem C11_keys : forall kvs,
+    wf (JMap kvs) = true -> in_range (JMap kvs) = true -> no_leading_eq (JMap kvs) = true ->
+    exists kvs', eval_lit (encode fprint (JMap kvs)) = ROk (JMap kvs') /\ map fst kvs' = map fst kvs.
+  Proof. exact (keys_roundtrip fprint fprint_numeral fprint_parse). Qed.
+End C11.
+
+(* non-vacuity: a nested value full of the hard cases meets the hypotheses, and
+   the model really computes the round trip on it (no float inside, so the
+   parameter fprint is irrelevant here) *)
+Example C11_nonvacuous :
+  let v := JMap [ ("a\nb", JStr "a\nb");
+                  ("q""k", JList [JStr "say ""hi"""; JStr "inf"; JStr " 12"; JStr "5."; JStr "1_000"]);
+                  ("=key", JStr (bs [97; 10; 34; 34; 34; 92; 0; 127; 9; 13; 195; 169]%N));
+                  ("n", JList [JStr "12"; JStr "-0"; JStr "007"; JInt (-9223372036854775808);
+                               JBool true; JNull; JStr ""; JList []; JMap []]) ] in
+  wf v = true /\ in_range v = true /\ no_leading_eq v = true /\
+  eval_lit (encode (fun _ _ => []) v) = ROk (norm v) /\
+  norm v <> v.
+Proof. vm_compute. repeat split; discriminate. Qed.
+
+(* ... and a numeral with fraction / exponent is delivered as the double it denotes *)
+Example C11_float_numeral :
+  eval_lit (encode (fun _ _ => []) (JList [JStr "1.5e3"; JStr "0.1"])) =
+  ROk (JList [JFloat 375 2; JFloat 3602879701896397 (-55)]).
+Proof. vm_compute. reflexivity. Qed.
+
+Print Assumptions C11_unescape_escape.
+Print Assumptions C11_string_roundtrip.
+Print Assumptions C11_norm_other_strings.
+Print Assumptions C11_norm_int_numeral.
+Print Assumptions C11_norm_float_numeral.
+Print Assumptions C11_int_text.
+Print Assumptions C11_lex_encode.
+Print Assumptions C11_parse_tokens_encode.
+Print Assumptions C11_roundtrip.
+Print Assumptions C11_keys.
